@@ -380,6 +380,19 @@ func cmdCheck(args []string) {
 		}
 		f.res = f.p.verifyFunc(f.key, false)
 		results = append(results, f.res)
+		// a callee without contract that is not in the baseline of the unchanged tree (a helper extracted
+		// in a refactor) and that could not be inlined leaves the caller's proof without the facts it had
+		if base := loadBaseline(); base != nil {
+			for _, n := range f.res.Notes {
+				if strings.HasPrefix(n, "call of ") && strings.Contains(n, " not inlined") {
+					callee := strings.TrimPrefix(n[:strings.Index(n, " not inlined")], "call of ")
+					if !base[f.p.Dir][callee] {
+						f.stale = true
+						stale = append(stale, f.key+": calls "+callee+", a function that is not part of the unchanged tree and has no contract")
+					}
+				}
+			}
+		}
 		for _, er := range f.res.Errors {
 			if strings.Contains(er, "unknown identifier") && (strings.Contains(er, "invariant") || strings.Contains(er, "decreases")) {
 				// a loop annotation names a variable that no longer exists: stale contract, not an engine fault
